@@ -33,6 +33,24 @@
 (* slices as records <<base location, lo, hi>>.  Magnitudes are kept below  *)
 (* 2^30 (TLC integers are 32-bit): a behaviour that would leave the window  *)
 (* ends with fault = "oom" (out of model), which is never a violation.      *)
+(*                                                                         *)
+(* I/O objects.  A value of type io_reader / io_writer is a REFERENCE       *)
+(* <<i, name>>: <<0, "src">> and <<0, "dst">> are the two buffers that the  *)
+(* environment passes to a public call; <<i, r>> with i > 0 is the local    *)
+(* variable r of the i-th frame of the call stack, which an enclosing       *)
+(* io_bind block has bound to a slice.  io_limit / io_bind blocks are       *)
+(* dynamic scopes: every frame carries a stack `iom` of the manipulations   *)
+(* that are in force; the window a program sees through a reference is the  *)
+(* real buffer cut down by every limit on that reference in every active    *)
+(* frame.  Leaving the block by ANY way (end, break, continue, return)      *)
+(* removes the manipulation; a suspension inside the block keeps it (the    *)
+(* suspended frame is kept verbatim).                                       *)
+(* iterate loops: the iteration variables are re-assigned at the start of   *)
+(* every iteration from the loop's own cursor (doc/note/iterate-loops.md:   *)
+(* "with chunk = input[8 .. 16]"), unrolling has no meaning, `break` leaves *)
+(* the whole statement (all rounds), `continue` starts the next iteration.  *)
+(* choose: the receiver remembers, per choosy function, which alternative   *)
+(* is selected (initially the function itself).                             *)
 (***************************************************************************)
 EXTENDS Integers, Sequences, FiniteSets, TLC, Json, Bitwise
 
@@ -91,6 +109,7 @@ IsSliceTy(t) == t # 0 /\ Nd(t).k = "TypeExpr" /\ Nd(t).a \in {"slice", "roslice"
 IsStatusTy(t) == t # 0 /\ Nd(t).k = "TypeExpr" /\ Nd(t).a = "" /\ Nd(t).b = "base" /\ Nd(t).c = "status"
 IsReaderTy(t) == t # 0 /\ Nd(t).k = "TypeExpr" /\ Nd(t).a = "" /\ Nd(t).b = "base" /\ Nd(t).c = "io_reader"
 IsWriterTy(t) == t # 0 /\ Nd(t).k = "TypeExpr" /\ Nd(t).a = "" /\ Nd(t).b = "base" /\ Nd(t).c = "io_writer"
+IsIOTy(t) == IsReaderTy(t) \/ IsWriterTy(t)
 
 \* Range of a (possibly refined) numeric type: refinement bounds are constant expressions.
 TyRange(t) ==
@@ -116,6 +135,10 @@ SafeMul(x, y) == IF x = 0 \/ y = 0 THEN 0
 SafeShl(x, k) == IF k >= 30 THEN (IF x = 0 THEN 0 ELSE Lim) ELSE SafeMul(x, Pow2(k))
 Mod2(v, w) == IF w >= 30 THEN v ELSE v % Pow2(w)     \* for v >= 0 inside the window
 Clamp(v, r) == IF r.hlo = 1 /\ v < r.lo THEN r.lo ELSE IF r.hhi = 1 /\ v > r.hi THEN r.hi ELSE v
+\* arithmetic shift right of a value inside the window by any amount (Bitwise!shiftR is a 32-bit Java shift)
+ShR(x, k) == IF k >= 30 THEN (IF x < 0 THEN 0 - 1 ELSE 0) ELSE x \div Pow2(k)
+Min2(x, y) == IF x < y THEN x ELSE y
+SetMin(S) == CHOOSE x \in S : \A y \in S : x <= y
 
 ---------------------------------------------------------------------------
 (* Expression evaluation.  C is the context [loc, args, pz]; th, src, dst   *)
@@ -142,6 +165,54 @@ AddF(a, s) == [v |-> a.v, f |-> a.f \cup s]
 Deref(C, loc) == CASE loc[1] = "loc" -> C.loc[loc[2]] [] loc[1] = "th" -> th[loc[2]] [] loc[1] = "arg" -> C.args[loc[2]]
 
 Names(seq) == { seq[i].n : i \in 1..Len(seq) }
+
+---------------------------------------------------------------------------
+(* I/O references and windows.  C = [loc, args, pz, rc, fi, iom]: the frame *)
+(* under evaluation is frame number C.fi of the call stack; the frames      *)
+(* below it are stack[1 .. C.fi - 1].                                       *)
+
+EmptySlice == [sl |-> TRUE, base |-> <<"none", "">>, lo |-> 0, hi |-> 0]
+\* value of a local io_reader / io_writer variable: not bound, or bound by io_bind to the slice sl (in the owner's frame)
+\* with read index ri (readers) / write index wi (writers) and history position hp
+Unbound == [bound |-> FALSE, sl |-> EmptySlice, ri |-> 0, wi |-> 0, hp |-> 0]
+
+FLoc(i, C) == IF i = C.fi THEN C.loc ELSE stack[i].loc
+FIom(i, C) == IF i = C.fi THEN C.iom ELSE stack[i].iom
+
+\* the reference that an io-typed expression denotes, or <<>>
+IORef(e, C) ==
+    LET n == Nd(e) IN
+    IF n.a = "." /\ Nd(n.l).a = "" /\ Nd(n.l).c = "args" /\ n.c \in DOMAIN C.args THEN C.args[n.c]
+    ELSE IF n.a = "" /\ n.c \in DOMAIN C.loc THEN <<C.fi, n.c>>
+    ELSE <<>>
+
+\* end positions of the io_limit blocks in force on ref, in every active frame
+LimEnds(ref, C) ==
+    UNION { { FIom(i, C)[k].end : k \in { j \in 1..Len(FIom(i, C)) : FIom(i, C)[j].k = "limit" /\ FIom(i, C)[j].ref = ref } } : i \in 1..C.fi }
+Cut(v, ends) == IF ends = {} THEN v ELSE Min2(v, SetMin(ends))
+
+\* elements of a slice value that lives in frame i
+SliceElems(sl, i, C) ==
+    IF sl.base[1] = "th" THEN SubSeq(th[sl.base[2]], sl.lo + 1, sl.hi)
+    ELSE IF sl.base[1] = "loc" THEN SubSeq(FLoc(i, C)[sl.base[2]], sl.lo + 1, sl.hi)
+    ELSE <<>>
+
+\* what the program sees through a reader reference: data[ri+1 .. wi] is available, closed = no more will come
+RdView(ref, C) ==
+    LET ends == LimEnds(ref, C) IN
+    IF ref[1] = 0
+    THEN [data |-> src.data, ri |-> src.ri, wi |-> Cut(src.wi, ends), closed |-> src.closed /\ Cut(src.wi, ends) = src.wi, hp |-> 0]
+    ELSE LET b == FLoc(ref[1], C)[ref[2]]
+             bytes == IF b.bound THEN SliceElems(b.sl, ref[1], C) ELSE <<>>
+         IN [data |-> bytes, ri |-> b.ri, wi |-> Cut(Len(bytes), ends), closed |-> FALSE, hp |-> b.hp]
+\* ... and through a writer reference: hist = the n bytes written so far that are still in the buffer, cap - n = room
+WrView(ref, C) ==
+    LET ends == LimEnds(ref, C) IN
+    IF ref[1] = 0
+    THEN [hist |-> dst.data, n |-> Len(dst.data), cap |-> Cut(dst.cap, ends), hp |-> 0]
+    ELSE LET b == FLoc(ref[1], C)[ref[2]]
+             bytes == IF b.bound THEN SliceElems(b.sl, ref[1], C) ELSE <<>>
+         IN [hist |-> SubSeq(bytes, 1, b.wi), n |-> b.wi, cap |-> Cut(Len(bytes), ends), hp |-> b.hp]
 
 RECURSIVE Eval(_, _)
 RECURSIVE Eval0(_, _)
@@ -172,7 +243,7 @@ BinOp(op, n, a, b) ==
          [] op = "/" -> IF y = 0 THEN AddF(Bi(a, b, 0), {V("divzero")}) ELSE chk(x \div y)
          [] op = "%" -> IF y = 0 THEN AddF(Bi(a, b, 0), {V("divzero")}) ELSE chk(x % y)
          [] op = "<<" -> IF y < 0 \/ y >= w THEN AddF(Bi(a, b, 0), {V("shift")}) ELSE chk(SafeShl(x, y))
-         [] op = ">>" -> IF y < 0 \/ y >= w THEN AddF(Bi(a, b, 0), {V("shift")}) ELSE Bi(a, b, shiftR(x, y))
+         [] op = ">>" -> IF y < 0 \/ y >= w THEN AddF(Bi(a, b, 0), {V("shift")}) ELSE Bi(a, b, ShR(x, y))
          [] op = "&" -> Bi(a, b, x & y)
          [] op = "|" -> Bi(a, b, x | y)
          [] op = "^" -> Bi(a, b, x ^^ y)
@@ -200,25 +271,56 @@ ReadN(meth) == CASE meth \in {"read_u8", "read_u8_as_u16", "read_u8_as_u32", "re
                  [] meth \in {"read_u16le", "read_u16be", "read_u16le_as_u32", "read_u16be_as_u32", "read_u16le_as_u64", "read_u16be_as_u64"} -> 2
                  [] meth \in {"read_u24le", "read_u24be", "read_u24le_as_u32", "read_u24be_as_u32", "read_u24le_as_u64", "read_u24be_as_u64"} -> 3
                  [] meth \in {"read_u32le", "read_u32be", "read_u32le_as_u64", "read_u32be_as_u64"} -> 4
+                 [] meth \in {"read_u40le_as_u64", "read_u40be_as_u64"} -> 5
+                 [] meth \in {"read_u48le_as_u64", "read_u48be_as_u64"} -> 6
+                 [] meth \in {"read_u56le_as_u64", "read_u56be_as_u64"} -> 7
+                 [] meth \in {"read_u64le", "read_u64be"} -> 8
                  [] OTHER -> 0
-IsBE(meth) == meth \in {"read_u16be", "read_u16be_as_u32", "read_u16be_as_u64", "read_u24be", "read_u24be_as_u32", "read_u24be_as_u64", "read_u32be", "read_u32be_as_u64"}
+IsBE(meth) == meth \in {"read_u16be", "read_u16be_as_u32", "read_u16be_as_u64", "read_u24be", "read_u24be_as_u32", "read_u24be_as_u64", "read_u32be", "read_u32be_as_u64",
+                        "read_u40be_as_u64", "read_u48be_as_u64", "read_u56be_as_u64", "read_u64be"}
 
 \* value of k bytes (sequence) little- or big-endian
 LEVal(bs, i) == IF i > Len(bs) THEN 0 ELSE bs[i] + 256 * LEVal(bs, i + 1)
 BEVal(bs) == LEVal([i \in 1..Len(bs) |-> bs[Len(bs) + 1 - i]], 1)
+\* the same, but Lim (= out of model) when the value would leave the 2^30 window (TLC integers are 32-bit)
+SafeLE(bs) == IF \E i \in 5..Len(bs) : bs[i] # 0 THEN Lim
+              ELSE IF Len(bs) >= 4 /\ bs[4] >= 64 THEN Lim
+              ELSE LEVal(SubSeq(bs, 1, Min2(Len(bs), 4)), 1)
+SafeBE(bs) == SafeLE([i \in 1..Len(bs) |-> bs[Len(bs) + 1 - i]])
+\* the n bytes of v (0 <= v < 2^30), little- or big-endian
+LEBytes(v, n) == [i \in 1..n |-> ShR(v, 8 * (i - 1)) % 256]
+BEBytes(v, n) == [i \in 1..n |-> ShR(v, 8 * (n - i)) % 256]
 
 PeekN(meth) == CASE meth \in {"peek_u8", "peek_u8_as_u16", "peek_u8_as_u32", "peek_u8_as_u64"} -> 1
                  [] meth \in {"peek_u16le", "peek_u16be", "peek_u16le_as_u32", "peek_u16be_as_u32", "peek_u16le_as_u64", "peek_u16be_as_u64"} -> 2
                  [] meth \in {"peek_u24le_as_u32", "peek_u24be_as_u32", "peek_u24le_as_u64", "peek_u24be_as_u64"} -> 3
                  [] meth \in {"peek_u32le", "peek_u32be", "peek_u32le_as_u64", "peek_u32be_as_u64"} -> 4
+                 [] meth \in {"peek_u40le_as_u64", "peek_u40be_as_u64"} -> 5
+                 [] meth \in {"peek_u48le_as_u64", "peek_u48be_as_u64"} -> 6
+                 [] meth \in {"peek_u56le_as_u64", "peek_u56be_as_u64"} -> 7
+                 [] meth \in {"peek_u64le", "peek_u64be"} -> 8
                  [] OTHER -> 0
-PeekBE(meth) == meth \in {"peek_u16be", "peek_u16be_as_u32", "peek_u16be_as_u64", "peek_u24be_as_u32", "peek_u24be_as_u64", "peek_u32be", "peek_u32be_as_u64"}
+PeekBE(meth) == meth \in {"peek_u16be", "peek_u16be_as_u32", "peek_u16be_as_u64", "peek_u24be_as_u32", "peek_u24be_as_u64", "peek_u32be", "peek_u32be_as_u64",
+                          "peek_u40be_as_u64", "peek_u48be_as_u64", "peek_u56be_as_u64", "peek_u64be"}
+\* unchecked multi-byte stores: io_writer.write_uNN{le,be}_fast!, slice.poke_uNN{le,be}!
+WriteN(meth) == CASE meth \in {"write_u8_fast", "poke_u8"} -> 1
+                  [] meth \in {"write_u16le_fast", "write_u16be_fast", "poke_u16le", "poke_u16be"} -> 2
+                  [] meth \in {"write_u24le_fast", "write_u24be_fast", "poke_u24le", "poke_u24be"} -> 3
+                  [] meth \in {"write_u32le_fast", "write_u32be_fast", "poke_u32le", "poke_u32be"} -> 4
+                  [] meth \in {"write_u40le_fast", "write_u40be_fast", "poke_u40le", "poke_u40be"} -> 5
+                  [] meth \in {"write_u48le_fast", "write_u48be_fast", "poke_u48le", "poke_u48be"} -> 6
+                  [] meth \in {"write_u56le_fast", "write_u56be_fast", "poke_u56le", "poke_u56be"} -> 7
+                  [] meth \in {"write_u64le_fast", "write_u64be_fast", "poke_u64le", "poke_u64be"} -> 8
+                  [] OTHER -> 0
+WriteBE(meth) == meth \in {"write_u16be_fast", "write_u24be_fast", "write_u32be_fast", "write_u40be_fast", "write_u48be_fast", "write_u56be_fast", "write_u64be_fast",
+                           "poke_u16be", "poke_u24be", "poke_u32be", "poke_u40be", "poke_u48be", "poke_u56be", "poke_u64be"}
 
 \* argument record of a user call: list0 of the call node holds Arg nodes
 ArgVals(xs, i, C) == IF i > Len(xs) THEN [v |-> <<>>, f |-> {}]
                      ELSE LET a == Nd(xs[i])
-                              isio == IsReaderTy(Nd(a.r).ty) \/ IsWriterTy(Nd(a.r).ty)
-                              r == IF isio THEN R(0) ELSE Eval(a.r, C)
+                              isio == IsIOTy(Nd(a.r).ty)
+                              rf == IF isio THEN IORef(a.r, C) ELSE <<>>
+                              r == IF isio THEN (IF Len(rf) = 0 THEN F(U("io argument")) ELSE R(rf)) ELSE Eval(a.r, C)
                               rest == ArgVals(xs, i + 1, C)
                           IN [v |-> <<[n |-> a.c, v |-> r.v]>> \o rest.v, f |-> r.f \cup rest.f]
 ArgFun(seq) == [x \in { seq[i].n : i \in 1..Len(seq) } |-> (CHOOSE p \in { seq[i] : i \in 1..Len(seq) } : p.n = x).v]
@@ -227,28 +329,75 @@ ArgFun(seq) == [x \in { seq[i].n : i \in 1..Len(seq) } |-> (CHOOSE p \in { seq[i
 ParamViol(f, argf) == \E i \in 1..Len(f.params) :
     LET p == f.params[i] IN IsNumTy(p.ty) /\ p.n \in DOMAIN argf /\ ~InRange(argf[p.n], TyRange(p.ty))
 
-\* built-in pure methods: recv is the evaluated receiver, rt its type node
-Method(C, n, recvE, meth, argsE) ==
+\* built-in pure methods of io_reader / io_writer values
+IOMethod(C, recvE, meth, argsE) ==
     LET rt == Nd(recvE).ty
-        rv == Eval(recvE, C)
+        rf == IORef(recvE, C)
+    IN IF Len(rf) = 0 THEN F(U("io expression"))
+       ELSE IF rf[1] = C.fi /\ rf[2] \in C.pz THEN F(PZ(rf[2]))
+       ELSE IF IsReaderTy(rt)
+       THEN LET v == RdView(rf, C) IN
+            IF PeekN(meth) > 0
+            THEN \* unchecked built-in: its pre-condition (enough bytes) must have been proven by the checker
+                 IF v.wi - v.ri < PeekN(meth) THEN F(V("precondition " \o meth))
+                 ELSE LET bs == SubSeq(v.data, v.ri + 1, v.ri + PeekN(meth))
+                          x == IF PeekBE(meth) THEN SafeBE(bs) ELSE SafeLE(bs)
+                      IN IF x >= Lim THEN F(OOMF) ELSE R(x)
+            ELSE IF meth = "length" THEN R(v.wi - v.ri)
+            ELSE IF meth = "is_closed" THEN R(IF v.closed THEN 1 ELSE 0)
+            ELSE IF meth = "position" THEN (IF OOM(v.hp + v.ri) THEN F(OOMF) ELSE R(v.hp + v.ri))
+            ELSE IF meth = "mark" THEN R(v.ri)
+            ELSE IF meth = "count_since" /\ Len(argsE) = 1
+            THEN LET m == Eval(Nd(argsE[1]).r, C) IN IF m.f # {} THEN m ELSE Un(m, IF v.ri >= m.v THEN v.ri - m.v ELSE 0)
+            ELSE F(U("method " \o meth))
+       ELSE LET w == WrView(rf, C) IN
+            IF meth = "length" THEN R(w.cap - w.n)
+            ELSE IF meth = "history_length" THEN R(w.n)
+            ELSE IF meth = "history_position" THEN R(w.hp)
+            ELSE IF meth = "position" THEN (IF OOM(w.hp + w.n) THEN F(OOMF) ELSE R(w.hp + w.n))
+            ELSE IF meth = "mark" THEN R(w.n)
+            ELSE IF meth = "count_since" /\ Len(argsE) = 1
+            THEN LET m == Eval(Nd(argsE[1]).r, C) IN IF m.f # {} THEN m ELSE Un(m, IF w.n >= m.v THEN w.n - m.v ELSE 0)
+            ELSE F(U("method " \o meth))
+
+\* built-in pure methods: recvE is the receiver expression
+Method(C, n, recvE, meth, argsE) ==
+    LET rt == Nd(recvE).ty IN
+    IF IsIOTy(rt) THEN IOMethod(C, recvE, meth, argsE)
+    ELSE
+    LET rv == Eval(recvE, C)
     IN IF meth = "length" /\ (IsArrayTy(rt) \/ IsSliceTy(rt))
        THEN IF rv.f # {} THEN rv ELSE IF IsSliceTy(rt) THEN Un(rv, rv.v.hi - rv.v.lo) ELSE Un(rv, Len(rv.v))
-       ELSE IF IsReaderTy(rt) /\ PeekN(meth) > 0
-       THEN \* unchecked built-in: its pre-condition (enough bytes) must have been proven by the checker
-            IF src.wi - src.ri < PeekN(meth) THEN F(V("precondition " \o meth))
-            ELSE LET bs == SubSeq(src.data, src.ri + 1, src.ri + PeekN(meth))
-                     v == IF PeekBE(meth) THEN BEVal(bs) ELSE LEVal(bs, 1)
-                 IN IF OOM(v) THEN F(OOMF) ELSE R(v)
-       ELSE IF meth = "length" /\ IsReaderTy(rt) THEN R(src.wi - src.ri)
-       ELSE IF meth = "length" /\ IsWriterTy(rt) THEN R(dst.cap - Len(dst.data))
-       ELSE IF meth = "is_closed" /\ IsReaderTy(rt) THEN R(IF src.closed THEN 1 ELSE 0)
-       ELSE IF meth = "position" /\ IsReaderTy(rt) THEN R(src.ri)
+       ELSE IF meth \in {"prefix", "suffix"} /\ IsSliceTy(rt) /\ Len(argsE) = 1
+       THEN \* the first / last up_to elements (all of them if there are fewer)
+            LET o == Eval(Nd(argsE[1]).r, C) IN
+            IF rv.f # {} THEN rv
+            ELSE IF o.f # {} /\ o.f # {OOMF} THEN o
+            ELSE LET len == rv.v.hi - rv.v.lo
+                     k == IF o.f # {} THEN len ELSE Min2(o.v, len)
+                 IN IF meth = "prefix" THEN R([rv.v EXCEPT !.hi = rv.v.lo + k]) ELSE R([rv.v EXCEPT !.lo = rv.v.hi - k])
+       ELSE IF IsSliceTy(rt) /\ PeekN(meth) > 0
+       THEN \* unchecked: slice.peek_uNN needs length() >= N
+            IF rv.f # {} THEN rv
+            ELSE IF rv.v.hi - rv.v.lo < PeekN(meth) THEN F(V("precondition " \o meth))
+            ELSE LET bs == SubSeq(SliceElems(rv.v, C.fi, C), 1, PeekN(meth))
+                     x == IF PeekBE(meth) THEN SafeBE(bs) ELSE SafeLE(bs)
+                 IN IF x >= Lim THEN F(OOMF) ELSE R(x)
        ELSE IF meth \in {"min", "max"} /\ Len(argsE) = 1
        THEN LET o == Eval(Nd(argsE[1]).r, C) IN
             Bi(rv, o, IF meth = "min" THEN (IF rv.v < o.v THEN rv.v ELSE o.v) ELSE (IF rv.v > o.v THEN rv.v ELSE o.v))
+       ELSE IF meth \in {"low_bits", "high_bits"} /\ Len(argsE) = 1 /\ IsNumTy(rt) /\ Nd(rt).c # "bool" /\ ~Signed(Nd(rt).c)
+       THEN \* the n lowest bits / the n highest bits (moved down) of an unsigned value, n < width
+            LET o == Eval(Nd(argsE[1]).r, C)
+                w == Width(Nd(rt).c)
+            IN IF rv.f # {} \/ o.f # {} THEN Bi(rv, o, 0)
+               ELSE IF o.v < 0 \/ o.v >= w THEN AddF(Bi(rv, o, 0), {V("argument")})
+               ELSE IF meth = "low_bits" THEN Bi(rv, o, Mod2(rv.v, o.v))
+               ELSE Bi(rv, o, ShR(rv.v, w - o.v))
        ELSE IF meth = "is_ok" THEN Un(rv, IF rv.v = "ok" THEN 1 ELSE 0)
        ELSE IF meth = "is_error" THEN Un(rv, IF rv.v \in { P.errs[i] : i \in 1..Len(P.errs) } THEN 1 ELSE 0)
        ELSE IF meth = "is_suspension" THEN Un(rv, IF rv.v \in { P.susps[i] : i \in 1..Len(P.susps) } THEN 1 ELSE 0)
+       ELSE IF meth = "is_note" THEN Un(rv, IF rv.v \in { P.notes[i] : i \in 1..Len(P.notes) } THEN 1 ELSE 0)
        ELSE F(U("method " \o meth))
 
 \* C.rc = TRUE: also check the checker's claimed range (MBounds) of every numeric node that is evaluated (C01).
@@ -299,13 +448,13 @@ Eval0(e, C) ==
     ELSE IF n.a = "("
     THEN IF Nd(n.l).a = "." /\ Nd(Nd(n.l).l).a = "" /\ Nd(Nd(n.l).l).c = "this" /\ Nd(n.l).c \in DOMAIN P.fmap
          THEN \* a pure user function inside an expression: interpreted when its body is a single `return e`
-              LET g == P.fmap[Nd(n.l).c]
+              LET g == IF P.fmap[Nd(n.l).c].choosy THEN P.fmap[th["~" \o Nd(n.l).c]] ELSE P.fmap[Nd(n.l).c]
                   body == Nd(g.id).z
               IN IF g.eff # "" \/ Len(body) # 1 \/ Nd(body[1]).k # "Ret" \/ Nd(body[1]).l = 0 THEN F(U("call in expression"))
                  ELSE LET av == ArgVals(n.x, 1, C) IN
                       IF av.f # {} THEN [v |-> 0, f |-> av.f]
                       ELSE IF ParamViol(g, ArgFun(av.v)) THEN F(V("argument"))
-                      ELSE Eval(Nd(body[1]).l, [loc |-> <<>>, args |-> ArgFun(av.v), pz |-> {}, rc |-> C.rc])
+                      ELSE Eval(Nd(body[1]).l, [loc |-> <<>>, args |-> ArgFun(av.v), pz |-> {}, rc |-> C.rc, fi |-> C.fi + 1, iom |-> <<>>])
          ELSE IF Nd(n.l).a = "." THEN Method(C, n, Nd(n.l).l, Nd(n.l).c, n.x) ELSE F(U("call in expression"))
     ELSE IF n.ar = "u"
     THEN LET x == Eval(n.r, C) IN
@@ -344,18 +493,23 @@ EvalTop(e, C) == Eval(e, C)
 
 FuncRec(name) == P.fmap[name]          \* (the exporter also writes the function table keyed by name)
 
-EmptySlice == [sl |-> TRUE, base |-> <<"none", "">>, lo |-> 0, hi |-> 0]
-ZeroOf(l) == IF l.arr > 0 THEN [i \in 1..l.arr |-> 0] ELSE IF l.kind = "status" THEN "ok" ELSE IF l.kind = "slice" THEN EmptySlice ELSE 0
+FuncTarget(name) == IF P.fmap[name].choosy THEN P.fmap[th["~" \o name]] ELSE P.fmap[name]   \* (`choose` redirects calls of a choosy function)
 
-NewFrame(f, args) ==
-    [fn |-> f.name, args |-> args,
+ZeroOf(l) == IF l.arr > 0 THEN [i \in 1..l.arr |-> 0] ELSE IF l.kind = "status" THEN "ok" ELSE IF l.kind = "slice" THEN EmptySlice
+             ELSE IF l.kind \in {"reader", "writer"} THEN Unbound ELSE 0
+
+\* fi: the frame's position in the call stack; its: the iterate loops in progress (innermost last), each
+\* [root, cur (round node), pos, n, d (depth of the control stack at the statement), ivs]; iom: the io_limit / io_bind
+\* blocks in force (innermost last), each [k, ref, end, name, old]
+NewFrame(f, args, fi) ==
+    [fn |-> f.name, args |-> args, fi |-> fi, its |-> <<>>, iom |-> <<>>,
      loc |-> [x \in Names(f.locals) |-> ZeroOf(CHOOSE l \in { f.locals[i] : i \in 1..Len(f.locals) } : l.n = x)],
      ctl |-> << [o |-> f.id, w |-> "z", pc |-> 1] >>,
      pz |-> {}, loops |-> {}, io |-> [k |-> "none"],
      re |-> FALSE]      \* re: the current statement is being re-entered after a suspension inside it
 
 Top == stack[Len(stack)]
-Ctx(fr) == [loc |-> fr.loc, args |-> fr.args, pz |-> fr.pz, rc |-> TRUE]
+Ctx(fr) == [loc |-> fr.loc, args |-> fr.args, pz |-> fr.pz, rc |-> TRUE, fi |-> fr.fi, iom |-> fr.iom]
 NoRc(C) == [C EXCEPT !.rc = FALSE]
 CtlTop(fr) == fr.ctl[Len(fr.ctl)]
 ListOf(c) == IF c.w = "z" THEN Nd(c.o).z ELSE Nd(c.o).y
@@ -415,6 +569,19 @@ Store(e, v, fr) ==
                     ELSE IF loc[1] = "loc" THEN [fr |-> [fr EXCEPT !.loc[loc[2]][i.v + 1] = v], th |-> th, f |-> {}]
                     ELSE [fr |-> fr, th |-> [th EXCEPT ![loc[2]][i.v + 1] = v], f |-> {}]
        ELSE [fr |-> fr, th |-> th, f |-> {U("lvalue")}]
+
+\* The value that the assignment statement s stores when its right-hand side evaluated to v: v itself for `=` / `=?`,
+\* `lhs op v` for the compound operators.  Returns [v, f].
+AssignVal(s, v, fr) ==
+    LET n == Nd(s)
+        op == n.a
+    IN IF op \in {"=", "=?"} THEN R(v)
+       ELSE LET cur == Eval(n.l, Ctx(fr))
+                bop == CASE op = "+=" -> "+" [] op = "-=" -> "-" [] op = "*=" -> "*" [] op = "/=" -> "/" [] op = "%=" -> "%"
+                         [] op = "<<=" -> "<<" [] op = ">>=" -> ">>" [] op = "&=" -> "&" [] op = "|=" -> "|" [] op = "^=" -> "^"
+                         [] op = "~mod+=" -> "~mod+" [] op = "~mod-=" -> "~mod-" [] op = "~mod*=" -> "~mod*" [] op = "~mod<<=" -> "~mod<<"
+                         [] op = "~sat+=" -> "~sat+" [] op = "~sat-=" -> "~sat-" [] OTHER -> op
+            IN IF cur.f # {} THEN cur ELSE BinOp(bop, Nd(n.l), cur, R(v))
 
 ---------------------------------------------------------------------------
 (* Facts (C02)                                                              *)
@@ -478,7 +645,9 @@ Deliver(fr, kind, st, rv) ==
                     IF cs.l = 0
                     THEN /\ stack' = [stk EXCEPT ![Len(stk)] = Advance(caller)] /\ saved' = sv
                          /\ UNCHANGED <<pi, th, src, dst, mode, status, retv, disabled, active, fault, ncalls, hist, fuel, pend>>
-                    ELSE LET s == Store(cs.l, val, caller) IN
+                    ELSE LET av == AssignVal(CurStmt(caller), val, caller) IN
+                         IF av.f # {} THEN Fault(FirstOf(av.f))
+                         ELSE LET s == Store(cs.l, av.v, caller) IN
                          IF s.f # {} THEN Fault(FirstOf(s.f))
                          ELSE /\ stack' = [stk EXCEPT ![Len(stk)] = Advance(s.fr)] /\ th' = s.th /\ saved' = sv
                               /\ UNCHANGED <<pi, src, dst, mode, status, retv, disabled, active, fault, ncalls, hist, fuel, pend>>
@@ -494,34 +663,207 @@ Enter(g, argf, fr) ==
     ELSE IF ParamViol(g, argf) THEN Fault(V("argument"))
     ELSE LET nf == IF HasSaved(g.name)
                    THEN LET sf == saved[g.name] IN
-                        [sf EXCEPT !.args = argf,
+                        [sf EXCEPT !.args = argf, !.fi = Len(stack) + 1,
                                    !.pz = IF Mode = "cgen" THEN DOMAIN sf.loc \ { g.resum[i] : i \in 1..Len(g.resum) } ELSE {}]
-                   ELSE NewFrame(g, argf)
+                   ELSE NewFrame(g, argf, Len(stack) + 1)
          IN /\ stack' = Append(SetTop(fr), nf)
             /\ saved' = [saved EXCEPT ![g.name] = NoSaved]
             /\ UNCHANGED <<pi, th, src, dst, mode, status, retv, disabled, active, fault, ncalls, hist, fuel, pend>>
 
 Suspend(fr, st) == Deliver(fr, "susp", st, 0)
 
-\* Complete an assignment statement `s` (an Assign node) with RHS value v.
-FinishAssign(s, v, fr) ==
+\* ---- effects of one statement on the top frame, the frames below it and the global buffers --------------------
+\* S = [fr, low, th, src, dst]: the (new) top frame, the frames below it, the receiver and the two environment buffers
+St0(fr) == [fr |-> fr, low |-> SubSeq(stack, 1, Len(stack) - 1), th |-> th, src |-> src, dst |-> dst]
+
+\* overwrite elements at+1 .. at+Len(bs) of the array at location `base` of frame i
+PutArr(S, i, base, at, bs) ==
+    LET upd(arr) == [j \in 1..Len(arr) |-> IF j > at /\ j <= at + Len(bs) THEN bs[j - at] ELSE arr[j]]
+    IN IF Len(bs) = 0 THEN S
+       ELSE IF base[1] = "th" THEN [S EXCEPT !.th[base[2]] = upd(@)]
+       ELSE IF base[1] = "loc" /\ i = S.fr.fi THEN [S EXCEPT !.fr.loc[base[2]] = upd(@)]
+       ELSE IF base[1] = "loc" THEN [S EXCEPT !.low[i].loc[base[2]] = upd(@)]
+       ELSE S
+GetBound(S, ref) == IF ref[1] = S.fr.fi THEN S.fr.loc[ref[2]] ELSE S.low[ref[1]].loc[ref[2]]
+SetBound(S, ref, b) == IF ref[1] = S.fr.fi THEN [S EXCEPT !.fr.loc[ref[2]] = b] ELSE [S EXCEPT !.low[ref[1]].loc[ref[2]] = b]
+\* move the read index of a reader
+SetRi(S, ref, ri) == IF ref[1] = 0 THEN [S EXCEPT !.src.ri = ri] ELSE SetBound(S, ref, [GetBound(S, ref) EXCEPT !.ri = ri])
+\* append bytes to a writer (a bound writer writes into the array under its slice)
+PutW(S, ref, bs) ==
+    IF Len(bs) = 0 THEN S
+    ELSE IF ref[1] = 0 THEN [S EXCEPT !.dst.data = @ \o bs]
+    ELSE LET b == GetBound(S, ref) IN
+         SetBound(PutArr(S, ref[1], b.sl.base, b.sl.lo + b.wi, bs), ref, [b EXCEPT !.wi = @ + Len(bs)])
+
+\* Finish statement s (an Assign node) in state S: store the value v (if the statement has a left-hand side), advance.
+Complete(s, hasv, v, S) ==
+    LET n == Nd(s) IN
+    IF n.l = 0 \/ ~hasv
+    THEN /\ stack' = Append(S.low, Advance(S.fr)) /\ th' = S.th /\ src' = S.src /\ dst' = S.dst
+         /\ UNCHANGED <<pi, saved, mode, status, retv, disabled, active, fault, ncalls, hist, fuel, pend>>
+    ELSE LET val == AssignVal(s, v, S.fr) IN
+         IF val.f # {} THEN Fault(FirstOf(val.f))
+         ELSE LET st == Store(n.l, val.v, S.fr) IN
+              IF st.f # {} THEN Fault(FirstOf(st.f))
+              ELSE IF st.th # th /\ S.th # th THEN Fault(U("store to a field after a write through a bound writer"))
+              ELSE /\ stack' = Append(S.low, Advance(st.fr)) /\ th' = (IF st.th # th THEN st.th ELSE S.th)
+                   /\ src' = S.src /\ dst' = S.dst
+                   /\ UNCHANGED <<pi, saved, mode, status, retv, disabled, active, fault, ncalls, hist, fuel, pend>>
+
+FinishAssign(s, v, fr) == Complete(s, TRUE, v, St0(fr))
+
+\* The top frame S.fr suspends inside a built-in with status st (the frame is kept and re-enters the statement).
+SuspendIO(S, st) ==
+    /\ th' = S.th /\ src' = S.src /\ dst' = S.dst
+    /\ saved' = [saved EXCEPT ![S.fr.fn] = S.fr]
+    /\ IF Len(stack) = 1
+       THEN /\ mode' = "idle" /\ status' = st /\ retv' = 0 /\ stack' = <<>> /\ active' = pend.fn
+            /\ hist' = Append(hist, [fn |-> pend.fn, args |-> pend.args, wi0 |-> pend.wi, closed0 |-> pend.closed, cap0 |-> pend.cap,
+                                     resumed |-> pend.resumed, st |-> st, rv |-> 0, ri |-> S.src.ri, out |-> S.dst.data, disabled |-> disabled])
+            /\ UNCHANGED <<pi, disabled, fault, ncalls, fuel, pend>>
+       ELSE /\ stack' = S.low /\ mode' = "unwind" /\ status' = st /\ retv' = 0
+            /\ UNCHANGED <<pi, disabled, active, fault, ncalls, hist, fuel, pend>>
+
+\* n bytes copied from `distance` back in the history (overlapping copies repeat, as in LZ77)
+RECURSIVE HistCopy(_, _, _)
+HistCopy(h, d, n) == IF n = 0 THEN <<>> ELSE LET x == h[Len(h) - d + 1] IN <<x>> \o HistCopy(Append(h, x), d, n - 1)
+
+\* Outcome of a statement-level call of an I/O or slice built-in with an effect:
+\*   k = "ok": consume (reader rref: new read index ri), produce (writer wref: bytes bs), store into a slice (swon: bytes
+\*             swbs at offset swat of the array at location swbase of this frame), result value v (hasv);
+\*   k = "susp": the same effects, then suspend with status st, remembering the pending operation io;
+\*   k = "fault": f.
+Res0 == [k |-> "ok", f |-> NoFaultRec, st |-> "ok", rref |-> <<>>, ri |-> 0, wref |-> <<>>, bs |-> <<>>,
+         swon |-> FALSE, swbase |-> <<"none", "">>, swat |-> 0, swbs |-> <<>>, hasv |-> FALSE, v |-> 0, io |-> [k |-> "none"]]
+ResF(f) == [Res0 EXCEPT !.k = "fault", !.f = f]
+
+ReaderEffects == {"skip_u32_fast", "skip_u32", "skip", "limited_copy_u32_to_slice"}
+WriterEffects == {"write_u8", "copy_from_slice", "limited_copy_u32_from_slice", "limited_copy_u32_from_history",
+                  "limited_copy_u32_from_history_fast", "limited_copy_u32_from_reader"}
+SliceEffects == {"copy_from_slice"}
+
+IOCall(s, fr) ==
     LET n == Nd(s)
+        call == Nd(n.r)
+        sel == Nd(call.l)
+        meth == sel.c
+        recvE == sel.l
+        rt == Nd(recvE).ty
         C == Ctx(fr)
-    IN IF n.l = 0 THEN /\ stack' = SetTop(Advance(fr))
-                       /\ UNCHANGED <<pi, th, saved, src, dst, mode, status, retv, disabled, active, fault, ncalls, hist, fuel, pend>>
-       ELSE LET op == n.a
-                val == IF op \in {"=", "=?"} THEN R(v)
-                       ELSE LET cur == EvalTop(n.l, C)
-                                bop == CASE op = "+=" -> "+" [] op = "-=" -> "-" [] op = "*=" -> "*" [] op = "/=" -> "/" [] op = "%=" -> "%"
-                                         [] op = "<<=" -> "<<" [] op = ">>=" -> ">>" [] op = "&=" -> "&" [] op = "|=" -> "|" [] op = "^=" -> "^"
-                                         [] op = "~mod+=" -> "~mod+" [] op = "~mod-=" -> "~mod-" [] op = "~mod*=" -> "~mod*" [] op = "~mod<<=" -> "~mod<<"
-                                         [] op = "~sat+=" -> "~sat+" [] op = "~sat-=" -> "~sat-" [] OTHER -> op
-                            IN IF cur.f # {} THEN cur ELSE BinOp(bop, Nd(n.l), cur, R(v))
-            IN IF val.f # {} THEN Fault(FirstOf(val.f))
-               ELSE LET st == Store(n.l, val.v, fr) IN
-                    IF st.f # {} THEN Fault(FirstOf(st.f))
-                    ELSE /\ stack' = SetTop(Advance(st.fr)) /\ th' = st.th
-                         /\ UNCHANGED <<pi, saved, src, dst, mode, status, retv, disabled, active, fault, ncalls, hist, fuel, pend>>
+        A(i) == EvalTop(Nd(call.x[i]).r, C)
+        rf == IF IsIOTy(rt) THEN IORef(recvE, C) ELSE <<>>
+    IN
+    IF IsIOTy(rt) /\ Len(rf) = 0 THEN ResF(U("io expression"))
+    ELSE IF IsIOTy(rt) /\ rf[1] = fr.fi /\ rf[2] \in fr.pz THEN ResF(PZ(rf[2]))
+    ELSE IF IsReaderTy(rt)
+    THEN LET v == RdView(rf, C)
+             avail == v.wi - v.ri
+         IN
+         IF ReadN(meth) > 0
+         THEN LET k == ReadN(meth)
+                  have == IF fr.io.k = "read" THEN fr.io.got ELSE <<>>     \* bytes already taken by a suspended multi-byte read
+                  need == k - Len(have)
+              IN IF avail >= need
+                 THEN LET bs == have \o SubSeq(v.data, v.ri + 1, v.ri + need)
+                          x == IF IsBE(meth) THEN SafeBE(bs) ELSE SafeLE(bs)
+                      IN IF x >= Lim THEN ResF(OOMF)
+                         ELSE [Res0 EXCEPT !.rref = rf, !.ri = v.ri + need, !.hasv = TRUE, !.v = x]
+                 ELSE \* take what is there, remember it, suspend with "$short read"
+                      [Res0 EXCEPT !.k = "susp", !.st = ShortRead, !.rref = rf, !.ri = v.wi,
+                                   !.io = [k |-> "read", got |-> have \o SubSeq(v.data, v.ri + 1, v.wi)]]
+         ELSE IF meth = "skip_u32_fast"
+         THEN \* unchecked: pre-condition actual <= worst_case <= length()
+              LET a == A(1)  w == A(2) IN
+              IF a.f # {} THEN ResF(FirstOf(a.f)) ELSE IF w.f # {} THEN ResF(FirstOf(w.f))
+              ELSE IF a.v > w.v \/ w.v > avail THEN ResF(V("precondition skip_u32_fast"))
+              ELSE [Res0 EXCEPT !.rref = rf, !.ri = v.ri + a.v]
+         ELSE IF meth \in {"skip_u32", "skip"}
+         THEN \* suspending skip: the amount is evaluated once and the remainder is kept across suspensions
+              LET a == IF fr.io.k = "skip" THEN R(fr.io.left) ELSE A(1) IN
+              IF a.f # {} THEN ResF(FirstOf(a.f))
+              ELSE IF avail >= a.v THEN [Res0 EXCEPT !.rref = rf, !.ri = v.ri + a.v]
+              ELSE [Res0 EXCEPT !.k = "susp", !.st = ShortRead, !.rref = rf, !.ri = v.wi, !.io = [k |-> "skip", left |-> a.v - avail]]
+         ELSE IF meth = "limited_copy_u32_to_slice"
+         THEN \* copies min(up_to, s.length(), this.length()) bytes into the front of s; returns that count
+              LET u == A(1)  sv == A(2) IN
+              IF u.f # {} THEN ResF(FirstOf(u.f)) ELSE IF sv.f # {} THEN ResF(FirstOf(sv.f))
+              ELSE LET k == Min2(Min2(u.v, sv.v.hi - sv.v.lo), avail) IN
+                   [Res0 EXCEPT !.rref = rf, !.ri = v.ri + k, !.swon = TRUE, !.swbase = sv.v.base, !.swat = sv.v.lo,
+                                !.swbs = SubSeq(v.data, v.ri + 1, v.ri + k), !.hasv = TRUE, !.v = k]
+         ELSE ResF(U("method " \o meth))
+    ELSE IF IsWriterTy(rt)
+    THEN LET w == WrView(rf, C)
+             room == w.cap - w.n
+         IN
+         IF meth = "write_u8"
+         THEN LET a == IF fr.io.k = "write" THEN R(fr.io.val) ELSE A(1) IN     \* the argument is evaluated once
+              IF a.f # {} THEN ResF(FirstOf(a.f))
+              ELSE IF room > 0 THEN [Res0 EXCEPT !.wref = rf, !.bs = <<a.v>>]
+              ELSE [Res0 EXCEPT !.k = "susp", !.st = ShortWrite, !.io = [k |-> "write", val |-> a.v]]
+         ELSE IF WriteN(meth) > 0
+         THEN \* unchecked: pre-condition length() >= N
+              LET a == A(1) IN
+              IF a.f # {} THEN ResF(FirstOf(a.f))
+              ELSE IF room < WriteN(meth) THEN ResF(V("precondition " \o meth))
+              ELSE [Res0 EXCEPT !.wref = rf, !.bs = IF WriteBE(meth) THEN BEBytes(a.v, WriteN(meth)) ELSE LEBytes(a.v, WriteN(meth))]
+         ELSE IF meth \in {"copy_from_slice", "limited_copy_u32_from_slice"}
+         THEN \* copies min([up_to,] s.length(), this.length()) bytes from the front of s; returns that count
+              LET lim == meth = "limited_copy_u32_from_slice"
+                  u == IF lim THEN A(1) ELSE R(0)
+                  sv == IF lim THEN A(2) ELSE A(1)
+              IN IF u.f # {} THEN ResF(FirstOf(u.f)) ELSE IF sv.f # {} THEN ResF(FirstOf(sv.f))
+                 ELSE LET len == sv.v.hi - sv.v.lo
+                          k == Min2(IF lim THEN Min2(u.v, len) ELSE len, room)
+                      IN [Res0 EXCEPT !.wref = rf, !.bs = SubSeq(SliceElems(sv.v, fr.fi, C), 1, k), !.hasv = TRUE, !.v = k]
+         ELSE IF meth \in {"limited_copy_u32_from_history", "limited_copy_u32_from_history_fast"}
+         THEN LET u == A(1)  d == A(2) IN
+              IF u.f # {} THEN ResF(FirstOf(u.f)) ELSE IF d.f # {} THEN ResF(FirstOf(d.f))
+              ELSE IF meth = "limited_copy_u32_from_history_fast"
+              THEN \* unchecked: pre-conditions 1 <= up_to <= length() and 1 <= distance <= history_length(); copies up_to bytes
+                   IF u.v < 1 \/ u.v > room \/ d.v < 1 \/ d.v > w.n THEN ResF(V("precondition " \o meth))
+                   ELSE [Res0 EXCEPT !.wref = rf, !.bs = HistCopy(w.hist, d.v, u.v), !.hasv = TRUE, !.v = u.v]
+              ELSE \* copies min(up_to, length()) bytes; nothing if the distance is 0 or reaches before the history
+                   IF d.v < 1 \/ d.v > w.n THEN [Res0 EXCEPT !.hasv = TRUE, !.v = 0]
+                   ELSE LET k == Min2(u.v, room) IN [Res0 EXCEPT !.wref = rf, !.bs = HistCopy(w.hist, d.v, k), !.hasv = TRUE, !.v = k]
+         ELSE IF meth = "limited_copy_u32_from_reader"
+         THEN \* copies min(up_to, r.length(), this.length()) bytes from the reader r, which advances; returns that count
+              LET u == A(1)
+                  rr == IORef(Nd(call.x[2]).r, C)
+              IN IF u.f # {} THEN ResF(FirstOf(u.f))
+                 ELSE IF Len(rr) = 0 THEN ResF(U("io argument"))
+                 ELSE IF rr[1] = fr.fi /\ rr[2] \in fr.pz THEN ResF(PZ(rr[2]))
+                 ELSE LET rv == RdView(rr, C)
+                          k == Min2(Min2(u.v, rv.wi - rv.ri), room)
+                      IN [Res0 EXCEPT !.wref = rf, !.bs = SubSeq(rv.data, rv.ri + 1, rv.ri + k), !.rref = rr, !.ri = rv.ri + k, !.hasv = TRUE, !.v = k]
+         ELSE ResF(U("method " \o meth))
+    ELSE IF IsSliceTy(rt)
+    THEN LET dv == EvalTop(recvE, C) IN
+         IF dv.f # {} THEN ResF(FirstOf(dv.f))
+         ELSE IF meth = "copy_from_slice"
+         THEN \* copies min(this.length(), s.length()) elements; returns that count
+              LET sv == A(1) IN
+              IF sv.f # {} THEN ResF(FirstOf(sv.f))
+              ELSE LET k == Min2(dv.v.hi - dv.v.lo, sv.v.hi - sv.v.lo) IN
+                   [Res0 EXCEPT !.swon = TRUE, !.swbase = dv.v.base, !.swat = dv.v.lo, !.swbs = SubSeq(SliceElems(sv.v, fr.fi, C), 1, k), !.hasv = TRUE, !.v = k]
+         ELSE IF WriteN(meth) > 0
+         THEN \* slice.poke_uNN!: unchecked, pre-condition length() >= N
+              LET a == A(1) IN
+              IF a.f # {} THEN ResF(FirstOf(a.f))
+              ELSE IF dv.v.hi - dv.v.lo < WriteN(meth) THEN ResF(V("precondition " \o meth))
+              ELSE [Res0 EXCEPT !.swon = TRUE, !.swbase = dv.v.base, !.swat = dv.v.lo,
+                                !.swbs = IF WriteBE(meth) THEN BEBytes(a.v, WriteN(meth)) ELSE LEBytes(a.v, WriteN(meth))]
+         ELSE ResF(U("method " \o meth))
+    ELSE ResF(U("method " \o meth))
+
+DoIO(s, fr) ==
+    LET r == IOCall(s, fr)
+        S0 == St0(fr)
+        S1 == IF Len(r.rref) > 0 THEN SetRi(S0, r.rref, r.ri) ELSE S0
+        S2 == IF Len(r.wref) > 0 THEN PutW(S1, r.wref, r.bs) ELSE S1
+        S3 == IF r.swon THEN PutArr(S2, fr.fi, r.swbase, r.swat, r.swbs) ELSE S2
+    IN IF r.k = "fault" THEN Fault(r.f)
+       ELSE IF r.k = "ok" THEN Complete(s, r.hasv, r.v, [S3 EXCEPT !.fr.io = [k |-> "none"]])
+       ELSE SuspendIO([S3 EXCEPT !.fr.io = r.io, !.fr.re = TRUE], r.st)
 
 \* statement-level call `recv.meth(args)` with receiver expression recvE
 DoCall(s, fr) ==
@@ -530,101 +872,19 @@ DoCall(s, fr) ==
         sel == Nd(call.l)
         meth == sel.c
         recvE == sel.l
-        rt == Nd(recvE).ty
         C == Ctx(fr)
-    IN IF IsReaderTy(rt) /\ ReadN(meth) > 0
-       THEN LET k == ReadN(meth)
-                have == IF fr.io.k = "read" THEN fr.io.got ELSE <<>>     \* bytes already taken by a suspended multi-byte read
-                avail == src.wi - src.ri
-                need == k - Len(have)
-            IN IF avail >= need
-               THEN LET bs == have \o SubSeq(src.data, src.ri + 1, src.ri + need)
-                        v == IF IsBE(meth) THEN BEVal(bs) ELSE LEVal(bs, 1)
-                    IN /\ src' = [src EXCEPT !.ri = @ + need]
-                       /\ LET fr2 == [fr EXCEPT !.io = [k |-> "none"]]
-                              nn == Nd(s)
-                          IN IF nn.l = 0 THEN stack' = SetTop(Advance(fr2)) /\ th' = th
-                             ELSE LET st == Store(nn.l, v, fr2) IN
-                                  IF st.f # {} THEN stack' = stack /\ th' = th   \* (unreachable: reads fit their types)
-                                  ELSE stack' = SetTop(Advance(st.fr)) /\ th' = st.th
-                       /\ UNCHANGED <<pi, saved, dst, mode, status, retv, disabled, active, fault, ncalls, hist, fuel, pend>>
-               ELSE \* take what is there, remember it, suspend with "$short read"
-                    LET bs == have \o SubSeq(src.data, src.ri + 1, src.wi)
-                        fr2 == [fr EXCEPT !.io = [k |-> "read", got |-> bs], !.re = TRUE]
-                    IN /\ src' = [src EXCEPT !.ri = src.wi]
-                       /\ LET sv == [saved EXCEPT ![fr.fn] = fr2] IN
-                          IF Len(stack) = 1
-                          THEN /\ mode' = "idle" /\ status' = ShortRead /\ retv' = 0 /\ stack' = <<>> /\ saved' = sv
-                               /\ active' = pend.fn
-                               /\ hist' = Append(hist, [fn |-> pend.fn, args |-> pend.args, wi0 |-> pend.wi, closed0 |-> pend.closed, cap0 |-> pend.cap,
-                                                        resumed |-> pend.resumed, st |-> ShortRead, rv |-> 0, ri |-> src.wi, out |-> dst.data, disabled |-> disabled])
-                               /\ UNCHANGED <<pi, th, dst, disabled, fault, ncalls, fuel, pend>>
-                          ELSE /\ stack' = SubSeq(stack, 1, Len(stack) - 1) /\ saved' = sv /\ mode' = "unwind"
-                               /\ status' = ShortRead /\ retv' = 0
-                               /\ UNCHANGED <<pi, th, dst, disabled, active, fault, ncalls, hist, fuel, pend>>
-       ELSE IF IsWriterTy(rt) /\ meth = "write_u8"
-       THEN LET a == IF fr.io.k = "write" THEN R(fr.io.val) ELSE EvalTop(Nd(call.x[1]).r, C) IN
-            IF a.f # {} THEN Fault(FirstOf(a.f))
-            ELSE IF Len(dst.data) < dst.cap
-            THEN /\ dst' = [dst EXCEPT !.data = Append(@, a.v)]
-                 /\ stack' = SetTop(Advance([fr EXCEPT !.io = [k |-> "none"]]))
-                 /\ UNCHANGED <<pi, th, saved, src, mode, status, retv, disabled, active, fault, ncalls, hist, fuel, pend>>
-            ELSE LET fr2 == [fr EXCEPT !.io = [k |-> "write", val |-> a.v], !.re = TRUE]
-                     sv == [saved EXCEPT ![fr.fn] = fr2]
-                 IN IF Len(stack) = 1
-                    THEN /\ mode' = "idle" /\ status' = ShortWrite /\ retv' = 0 /\ stack' = <<>> /\ saved' = sv
-                         /\ active' = pend.fn
-                         /\ hist' = Append(hist, [fn |-> pend.fn, args |-> pend.args, wi0 |-> pend.wi, closed0 |-> pend.closed, cap0 |-> pend.cap,
-                                                  resumed |-> pend.resumed, st |-> ShortWrite, rv |-> 0, ri |-> src.ri, out |-> dst.data, disabled |-> disabled])
-                         /\ UNCHANGED <<pi, th, src, dst, disabled, fault, ncalls, fuel, pend>>
-                    ELSE /\ stack' = SubSeq(stack, 1, Len(stack) - 1) /\ saved' = sv /\ mode' = "unwind"
-                         /\ status' = ShortWrite /\ retv' = 0
-                         /\ UNCHANGED <<pi, th, src, dst, disabled, active, fault, ncalls, hist, fuel, pend>>
-       ELSE IF IsReaderTy(rt) /\ meth = "skip_u32_fast"
-       THEN \* unchecked: pre-condition actual <= worst_case <= length()
-            LET a == EvalTop(Nd(call.x[1]).r, C)  w == EvalTop(Nd(call.x[2]).r, C) IN
-            IF a.f # {} THEN Fault(FirstOf(a.f)) ELSE IF w.f # {} THEN Fault(FirstOf(w.f))
-            ELSE IF a.v > w.v \/ w.v > src.wi - src.ri THEN Fault(V("precondition skip_u32_fast"))
-            ELSE /\ src' = [src EXCEPT !.ri = @ + a.v] /\ stack' = SetTop(Advance(fr))
-                 /\ UNCHANGED <<pi, th, saved, dst, mode, status, retv, disabled, active, fault, ncalls, hist, fuel, pend>>
-       ELSE IF IsWriterTy(rt) /\ meth = "write_u8_fast"
-       THEN LET a == EvalTop(Nd(call.x[1]).r, C) IN
-            IF a.f # {} THEN Fault(FirstOf(a.f))
-            ELSE IF Len(dst.data) >= dst.cap THEN Fault(V("precondition write_u8_fast"))
-            ELSE /\ dst' = [dst EXCEPT !.data = Append(@, a.v)] /\ stack' = SetTop(Advance(fr))
-                 /\ UNCHANGED <<pi, th, saved, src, mode, status, retv, disabled, active, fault, ncalls, hist, fuel, pend>>
-       ELSE IF IsReaderTy(rt) /\ meth \in {"skip_u32", "skip"}
-       THEN \* suspending skip: the amount is evaluated once and the remainder is kept across suspensions
-            LET a == IF fr.io.k = "skip" THEN R(fr.io.left) ELSE EvalTop(Nd(call.x[1]).r, C)
-                avail == src.wi - src.ri
-            IN IF a.f # {} THEN Fault(FirstOf(a.f))
-               ELSE IF avail >= a.v
-               THEN /\ src' = [src EXCEPT !.ri = @ + a.v] /\ stack' = SetTop(Advance([fr EXCEPT !.io = [k |-> "none"]]))
-                    /\ UNCHANGED <<pi, th, saved, dst, mode, status, retv, disabled, active, fault, ncalls, hist, fuel, pend>>
-               ELSE LET fr2 == [fr EXCEPT !.io = [k |-> "skip", left |-> a.v - avail], !.re = TRUE]
-                        sv == [saved EXCEPT ![fr.fn] = fr2]
-                    IN /\ src' = [src EXCEPT !.ri = src.wi]
-                       /\ IF Len(stack) = 1
-                          THEN /\ mode' = "idle" /\ status' = ShortRead /\ retv' = 0 /\ stack' = <<>> /\ saved' = sv /\ active' = pend.fn
-                               /\ hist' = Append(hist, [fn |-> pend.fn, args |-> pend.args, wi0 |-> pend.wi, closed0 |-> pend.closed, cap0 |-> pend.cap,
-                                                        resumed |-> pend.resumed, st |-> ShortRead, rv |-> 0, ri |-> src.wi, out |-> dst.data, disabled |-> disabled])
-                               /\ UNCHANGED <<pi, th, dst, disabled, fault, ncalls, fuel, pend>>
-                          ELSE /\ stack' = SubSeq(stack, 1, Len(stack) - 1) /\ saved' = sv /\ mode' = "unwind" /\ status' = ShortRead /\ retv' = 0
-                               /\ UNCHANGED <<pi, th, dst, disabled, active, fault, ncalls, hist, fuel, pend>>
-       ELSE IF Nd(recvE).a = "" /\ Nd(recvE).c = "this" /\ (meth \in DOMAIN P.fmap)
-       THEN LET g == FuncRec(meth)
+    IN IF Nd(recvE).a = "" /\ Nd(recvE).c = "this" /\ (meth \in DOMAIN P.fmap)
+       THEN LET g == FuncTarget(meth)
                 av == ArgVals(call.x, 1, C)
             IN IF av.f # {} THEN Fault(FirstOf(av.f)) ELSE Enter(g, ArgFun(av.v), fr)
-       ELSE \* a pure built-in method used as a statement-level RHS
-            LET v == EvalTop(n.r, C) IN
-            IF v.f # {} THEN Fault(FirstOf(v.f)) ELSE FinishAssign(s, v.v, fr)
+       ELSE DoIO(s, fr)
 
 IsUserOrIOCall(e) ==
     /\ Nd(e).a = "(" /\ Nd(Nd(e).l).a = "."
     /\ LET sel == Nd(Nd(e).l) rt == Nd(sel.l).ty IN
-       \/ (IsReaderTy(rt) /\ ReadN(sel.c) > 0)
-       \/ (IsWriterTy(rt) /\ sel.c \in {"write_u8", "write_u8_fast"})
-       \/ (IsReaderTy(rt) /\ sel.c \in {"skip_u32_fast", "skip_u32", "skip"})
+       \/ (IsReaderTy(rt) /\ (ReadN(sel.c) > 0 \/ sel.c \in ReaderEffects))
+       \/ (IsWriterTy(rt) /\ (sel.c \in WriterEffects \/ WriteN(sel.c) > 0))
+       \/ (IsSliceTy(rt) /\ (sel.c \in SliceEffects \/ WriteN(sel.c) > 0))
        \/ (Nd(sel.l).a = "" /\ Nd(sel.l).c = "this" /\ sel.c \in DOMAIN P.fmap)
 
 \* which block of an if / else-if chain is entered: <<node, "z"|"y">> or <<>>; faults in conditions surface as <<"fault", s>>
@@ -636,9 +896,47 @@ IfTarget(i, C) ==
     ELSE IF Nd(i).r # 0 THEN IfTarget(Nd(i).r, C)
     ELSE IF Len(Nd(i).y) > 0 THEN [k |-> "blk", o |-> i, w |-> "y"] ELSE [k |-> "none"]
 
-\* pop control entries down to (and including) the loop `lp`
+\* leave the innermost io_limit / io_bind block: the manipulation ends (a binding is undone)
+PopIom(fr) ==
+    LET e == fr.iom[Len(fr.iom)]
+        fr1 == [fr EXCEPT !.iom = SubSeq(@, 1, Len(@) - 1)]
+    IN IF e.k = "bind" THEN [fr1 EXCEPT !.loc[e.name] = e.old] ELSE fr1
+PopOne(fr) == IF Nd(CtlTop(fr).o).k = "IOManip" THEN PopCtl(PopIom(fr)) ELSE PopCtl(fr)
+\* pop control entries down to (and including) the loop `lp`; io blocks that are left on the way end
 RECURSIVE PopTo(_, _)
-PopTo(fr, lp) == IF CtlTop(fr).o = lp THEN PopCtl(fr) ELSE PopTo(PopCtl(fr), lp)
+PopTo(fr, lp) == IF CtlTop(fr).o = lp THEN PopOne(fr) ELSE PopTo(PopOne(fr), lp)
+\* after a jump: forget the iterate loops that were left (keepEq: a `continue` of the iterate loop at this depth keeps it)
+TrimIts(fr, keepEq) == [fr EXCEPT !.its = SelectSeq(@, LAMBDA e : e.d < Len(fr.ctl) \/ (keepEq /\ e.d = Len(fr.ctl)))]
+
+\* ---- iterate ----------------------------------------------------------------------------------------------------
+IterTop(fr) == fr.its[Len(fr.its)]
+IterActive(fr, s) == Len(fr.its) > 0 /\ IterTop(fr).root = s /\ IterTop(fr).d = Len(fr.ctl)
+\* the first round, from node `nd` on, whose length fits into the remaining rem elements (0: none)
+RECURSIVE RoundFor(_, _)
+RoundFor(nd, rem) == IF Nd(nd).cv <= rem THEN nd ELSE IF Nd(nd).r # 0 THEN RoundFor(Nd(nd).r, rem) ELSE 0
+\* evaluate the assignments `x = slice expression` of an iterate statement: [v |-> <<[name, sl]>>, f]
+RECURSIVE IterVars(_, _, _)
+IterVars(xs, i, fr) ==
+    IF i > Len(xs) THEN [v |-> <<>>, f |-> {}]
+    ELSE LET a == Nd(xs[i])
+             lhs == Nd(a.l)
+             r == IF lhs.a = "" /\ lhs.c \in DOMAIN fr.loc /\ IsSliceTy(Nd(a.r).ty) THEN EvalTop(a.r, Ctx(fr)) ELSE F(U("iterate assignment"))
+             rest == IterVars(xs, i + 1, fr)
+         IN [v |-> <<[name |-> lhs.c, sl |-> r.v]>> \o rest.v, f |-> r.f \cup rest.f]
+\* every iteration variable becomes the window [pos, pos + len) of its slice
+RECURSIVE SetIterVars(_, _, _, _, _)
+SetIterVars(fr, ivs, i, pos, len) ==
+    IF i > Len(ivs) THEN fr
+    ELSE LET v == ivs[i] IN
+         SetIterVars([fr EXCEPT !.loc[v.name] = [v.sl EXCEPT !.lo = v.sl.lo + pos, !.hi = v.sl.lo + pos + len], !.pz = @ \ {v.name}],
+                     ivs, i + 1, pos, len)
+\* start the next iteration of the innermost iterate loop, or finish the statement
+IterNext(fr) ==
+    LET e == IterTop(fr)
+        rnd == RoundFor(e.cur, e.n - e.pos)
+    IN IF rnd = 0
+       THEN Advance([SetIterVars(fr, e.ivs, 1, e.pos, 0) EXCEPT !.its = SubSeq(@, 1, Len(@) - 1)])
+       ELSE PushCtl([SetIterVars(fr, e.ivs, 1, e.pos, Nd(rnd).cv) EXCEPT !.its[Len(fr.its)].cur = rnd], rnd, "z")
 
 Step ==
     /\ mode = "run" /\ Len(stack) > 0
@@ -653,13 +951,18 @@ Step ==
                     Deliver(fr, "ret", "ok", 0) /\ fuel' = fuel   \* (fuel is UNCHANGED inside Deliver)
                ELSE IF Nd(o).k = "While"
                THEN stack' = SetTop(PopCtl(fr)) /\ UNCHANGED <<pi, th, saved, src, dst, mode, status, retv, disabled, active, fault, ncalls, hist, pend>> /\ fuel' = fuel - 1
+               ELSE IF Nd(o).k = "Iterate"
+               THEN \* end of an iteration: the cursor advances, the iterate statement decides what comes next
+                    stack' = SetTop([PopCtl(fr) EXCEPT !.its[Len(fr.its)].pos = @ + Nd(o).lo]) /\ UNCHANGED <<pi, th, saved, src, dst, mode, status, retv, disabled, active, fault, ncalls, hist, pend>> /\ fuel' = fuel - 1
+               ELSE IF Nd(o).k = "IOManip"
+               THEN stack' = SetTop(Advance(PopCtl(PopIom(fr)))) /\ UNCHANGED <<pi, th, saved, src, dst, mode, status, retv, disabled, active, fault, ncalls, hist, pend>> /\ fuel' = fuel - 1
                ELSE stack' = SetTop(Advance(PopCtl(fr))) /\ UNCHANGED <<pi, th, saved, src, dst, mode, status, retv, disabled, active, fault, ncalls, hist, pend>> /\ fuel' = fuel - 1
           ELSE LET s == CurStmt(fr)
                    n == Nd(s)
                    \* the facts recorded before a `while` statement are those at its first entry
                    \* ... and the facts before a statement are not re-examined when the statement is re-entered
                    \* after a suspension inside it (they held when it was first reached)
-                   ff == IF n.hf = 1 /\ ~fr.re /\ ~(n.k = "While" /\ s \in fr.loops) THEN FalseFacts(s, C) ELSE {}
+                   ff == IF n.hf = 1 /\ ~fr.re /\ ~(n.k = "While" /\ s \in fr.loops) /\ ~(n.k = "Iterate" /\ IterActive(fr, s)) THEN FalseFacts(s, C) ELSE {}
                IN IF ff # {} THEN Fault([k |-> "fact", d |-> ToString(s) \o ":" \o ToString(FirstOf(ff))])
                   ELSE CASE n.k = "Var" -> stack' = SetTop(Advance(fr)) /\ UNCHANGED <<pi, th, saved, src, dst, mode, status, retv, disabled, active, fault, ncalls, hist, pend>> /\ fuel' = fuel - 1
                          [] n.k = "Assert" ->
@@ -690,11 +993,22 @@ Step ==
                                       ELSE stack' = SetTop(Advance([fr EXCEPT !.loops = @ \ {s}])) /\ UNCHANGED <<pi, th, saved, src, dst, mode, status, retv, disabled, active, fault, ncalls, hist, pend>> /\ fuel' = fuel - 1
                          [] n.k = "Jump" ->
                               LET lp == n.jt
-                                  fr2 == PopTo(fr, lp)
+                                  isit == Nd(lp).k = "Iterate"
+                                  fr1 == PopTo(fr, lp)
+                                  fr2 == TrimIts(fr1, n.a = "continue")
                               IN IF n.a = "continue"
-                                 THEN stack' = SetTop(fr2) /\ UNCHANGED <<pi, th, saved, src, dst, mode, status, retv, disabled, active, fault, ncalls, hist, pend>> /\ fuel' = fuel - 1
+                                 THEN LET badinv == IF isit THEN FalseAsserts(lp, {"inv", "pre"}, C) ELSE {} IN
+                                      IF badinv # {} THEN Fault([k |-> "fact", d |-> "loop " \o ToString(FirstOf(badinv))])
+                                      ELSE IF isit
+                                      THEN \* `continue` of an iterate loop: the next iteration (the cursor advances)
+                                           stack' = SetTop([fr2 EXCEPT !.its[Len(fr2.its)].pos = @ + Nd(lp).lo]) /\ UNCHANGED <<pi, th, saved, src, dst, mode, status, retv, disabled, active, fault, ncalls, hist, pend>> /\ fuel' = fuel - 1
+                                      ELSE stack' = SetTop(fr2) /\ UNCHANGED <<pi, th, saved, src, dst, mode, status, retv, disabled, active, fault, ncalls, hist, pend>> /\ fuel' = fuel - 1
                                  ELSE LET badpost == FalseAsserts(lp, {"post"}, C) IN
                                       IF badpost # {} THEN Fault([k |-> "fact", d |-> "loop " \o ToString(FirstOf(badpost))])
+                                      ELSE IF isit
+                                      THEN \* `break` of an iterate loop leaves the whole statement (every round); the variables end empty
+                                           LET e == IterTop(fr1) IN
+                                           stack' = SetTop(Advance(SetIterVars(fr2, e.ivs, 1, e.pos, 0))) /\ UNCHANGED <<pi, th, saved, src, dst, mode, status, retv, disabled, active, fault, ncalls, hist, pend>> /\ fuel' = fuel - 1
                                       ELSE stack' = SetTop(Advance([fr2 EXCEPT !.loops = @ \ {lp}])) /\ UNCHANGED <<pi, th, saved, src, dst, mode, status, retv, disabled, active, fault, ncalls, hist, pend>> /\ fuel' = fuel - 1
                          [] n.k = "Ret" ->
                               LET v == IF n.l = 0 THEN R(0) ELSE EvalTop(n.l, C)
@@ -703,6 +1017,43 @@ Step ==
                                  THEN Suspend(Advance(fr), v.v) /\ fuel' = fuel
                                  ELSE IF f.eff = "?" THEN Deliver(fr, "ret", v.v, 0) /\ fuel' = fuel
                                  ELSE Deliver(fr, "ret", "ok", v.v) /\ fuel' = fuel
+                         [] n.k = "Iterate" ->
+                              IF IterActive(fr, s) THEN stack' = SetTop(IterNext(fr)) /\ UNCHANGED <<pi, th, saved, src, dst, mode, status, retv, disabled, active, fault, ncalls, hist, pend>> /\ fuel' = fuel - 1
+                              ELSE IF Len(n.x) = 0 THEN Fault(U("iterate without variables"))
+                              ELSE LET iv == IterVars(n.x, 1, fr) IN
+                                   IF iv.f # {} THEN Fault(FirstOf(iv.f))
+                                   ELSE LET total == SetMin({ iv.v[i].sl.hi - iv.v[i].sl.lo : i \in 1..Len(iv.v) })   \* the shortest slice decides
+                                            e == [root |-> s, cur |-> s, pos |-> 0, n |-> total, d |-> Len(fr.ctl), ivs |-> iv.v]
+                                        IN stack' = SetTop(IterNext([fr EXCEPT !.its = Append(@, e)])) /\ UNCHANGED <<pi, th, saved, src, dst, mode, status, retv, disabled, active, fault, ncalls, hist, pend>> /\ fuel' = fuel - 1
+                         [] n.k = "IOManip" ->
+                              IF n.a = "io_limit"
+                              THEN LET rf == IORef(n.l, C)
+                                       lim == EvalTop(n.m, C)
+                                   IN IF Len(rf) = 0 THEN Fault(U("io_limit expression"))
+                                      ELSE IF rf[1] = fr.fi /\ rf[2] \in fr.pz THEN Fault(PZ(rf[2]))
+                                      ELSE IF lim.f # {} /\ lim.f # {OOMF} THEN Fault(FirstOf(lim.f))
+                                      ELSE LET at == IF IsReaderTy(Nd(n.l).ty) THEN RdView(rf, C).ri ELSE WrView(rf, C).n
+                                               end == IF lim.f # {} \/ OOM(at + lim.v) THEN Lim ELSE at + lim.v    \* (a limit beyond the window limits nothing)
+                                               e == [k |-> "limit", ref |-> rf, end |-> end, name |-> "", old |-> Unbound]
+                                           IN stack' = SetTop(PushCtl([fr EXCEPT !.iom = Append(@, e)], s, "z")) /\ UNCHANGED <<pi, th, saved, src, dst, mode, status, retv, disabled, active, fault, ncalls, hist, pend>> /\ fuel' = fuel - 1
+                              ELSE IF n.a = "io_bind"
+                              THEN LET nm == Nd(n.l).c
+                                       data == EvalTop(n.m, C)
+                                       hp == EvalTop(n.r, C)
+                                   IN IF Nd(n.l).a # "" \/ nm \notin DOMAIN fr.loc \/ ~IsSliceTy(Nd(n.m).ty) THEN Fault(U("io_bind expression"))
+                                      ELSE IF data.f # {} THEN Fault(FirstOf(data.f))
+                                      ELSE IF hp.f # {} /\ hp.f # {OOMF} THEN Fault(FirstOf(hp.f))
+                                      ELSE LET b == [bound |-> TRUE, sl |-> data.v, ri |-> 0, wi |-> 0, hp |-> IF hp.f # {} THEN Lim ELSE hp.v]
+                                               e == [k |-> "bind", ref |-> <<fr.fi, nm>>, end |-> 0, name |-> nm, old |-> fr.loc[nm]]
+                                           IN stack' = SetTop(PushCtl([fr EXCEPT !.iom = Append(@, e), !.loc[nm] = b, !.pz = @ \ {nm}], s, "z")) /\ UNCHANGED <<pi, th, saved, src, dst, mode, status, retv, disabled, active, fault, ncalls, hist, pend>> /\ fuel' = fuel - 1
+                              ELSE Fault(U("statement " \o n.a))
+                         [] n.k = "Choose" ->
+                              \* the first listed alternative is selected (alternatives with a cpu_arch condition are outside the fragment)
+                              IF Len(n.x) = 0 THEN stack' = SetTop(Advance(fr)) /\ UNCHANGED <<pi, th, saved, src, dst, mode, status, retv, disabled, active, fault, ncalls, hist, pend>> /\ fuel' = fuel - 1
+                              ELSE IF ("~" \o n.c) \notin DOMAIN th \/ Nd(n.x[1]).c \notin DOMAIN P.fmap THEN Fault(U("choose"))
+                              ELSE IF P.fmap[Nd(n.x[1]).c].cpuarch THEN Fault(U("choose with a cpu_arch alternative"))
+                              ELSE /\ stack' = SetTop(Advance(fr)) /\ th' = [th EXCEPT !["~" \o n.c] = Nd(n.x[1]).c]
+                                   /\ UNCHANGED <<pi, saved, src, dst, mode, status, retv, disabled, active, fault, ncalls, hist, pend>> /\ fuel' = fuel - 1
                          [] OTHER -> Fault(U("statement " \o n.k))
 
 \* A plain (non `=?`) coroutine call whose callee suspended or failed: the
@@ -744,7 +1095,9 @@ ZeroField(fd) == IF fd.arr > 0 THEN [i \in 1..fd.arr |-> 0] ELSE 0
 
 Init ==
     /\ pi \in 1..Len(Progs)
-    /\ th = [x \in Names(P.fields) |-> ZeroField(CHOOSE fd \in { P.fields[i] : i \in 1..Len(P.fields) } : fd.n = x)]
+    /\ th = [x \in Names(P.fields) \cup { "~" \o P.funcs[i].name : i \in { j \in 1..Len(P.funcs) : P.funcs[j].choosy } } |->
+                IF x \in Names(P.fields) THEN ZeroField(CHOOSE fd \in { P.fields[i] : i \in 1..Len(P.fields) } : fd.n = x)
+                ELSE (CHOOSE g \in { P.funcs[i] : i \in 1..Len(P.funcs) } : "~" \o g.name = x).name]     \* choosy functions start as themselves
     /\ stack = <<>>
     /\ saved = [x \in { P.funcs[i].name : i \in 1..Len(P.funcs) } |-> NoSaved]
     /\ \E k \in 1..Len(P.inputs) :
@@ -793,9 +1146,9 @@ Call(g, ci) ==
              ELSE /\ mode' = "run"
                   /\ stack' = << IF HasSaved(g.name)
                                  THEN LET sf == saved[g.name] IN
-                                      [sf EXCEPT !.args = argf,
+                                      [sf EXCEPT !.args = argf, !.fi = 1,
                                                  !.pz = IF Mode = "cgen" THEN DOMAIN sf.loc \ { g.resum[i] : i \in 1..Len(g.resum) } ELSE {}]
-                                 ELSE NewFrame(g, argf) >>
+                                 ELSE NewFrame(g, argf, 1) >>
                   /\ saved' = [saved EXCEPT ![g.name] = NoSaved]
                   /\ UNCHANGED <<pi, th, src, dst, status, retv, disabled, active, fault, hist, fuel>>
 
@@ -832,7 +1185,11 @@ View == <<pi, th, stack, saved, src, dst, mode, status, retv, disabled, active, 
 
 \* Export: print every finished history once (a history is finished when no
 \* further public call is allowed or the run ended in a fault).
-Finished == mode \in {"idle", "done"} /\ (ncalls >= MaxCalls \/ mode = "done" \/ disabled)
+\* (... or the coroutine waits for input that cannot come - the source is closed - or for room that cannot come)
+Stuck == mode = "idle" /\ ~disabled /\ fault = NoFaultRec
+         /\ ((status = ShortRead /\ src.closed) \/ (status = ShortWrite /\ dst.cap >= P.dstcap))
+Finished == \/ mode \in {"idle", "done"} /\ (ncalls >= MaxCalls \/ mode = "done" \/ disabled)
                 /\ ~(status \in {ShortRead, ShortWrite, "supplied", "drained"} /\ mode = "idle" /\ ~disabled /\ fault = NoFaultRec)
+            \/ Stuck
 ExportInv == Finished => PrintT(ToJson([prog |-> pi, fault |-> fault, input |-> src.data, hist |-> hist]))
 =============================================================================
